@@ -49,4 +49,21 @@ theorem C02_cut_invisible_guest_level (w₀ : World) (harena : w₀.arena.Nodup)
   C02_cut_invisible w₀ harena evs cuts fun c hc =>
     (C02_quiescent_guest_level w₀ (evs.take c) (rq_results_take evs _ c hacc) (rq_balanced_take evs c hbal)
       (rq_noDrop_take evs _ c hdrop)).2 (hq c hc)
+/-- Persisting where the receiver has no entered span makes no host call at all (the harness
+    checks exactly this at every guest-quiescent cut). -/
+theorem C02_quiescent_persist_is_silent (σ : Sigma) (hq : σ.r.entered = []) :
+    (persist σ).2.2.host = σ.w.host := by
+  simp [persist, finalize, hq]
+
+/-- With the guest-level reading of quiescence (`C02_quiescent_guest_level`): after an accepted
+    stream with balanced exits in which every span is exited as often as entered, persisting makes no
+    host call. -/
+theorem C02_quiescent_persist_is_silent_guest_level (w₀ : World) (evs : List Event)
+    (hacc : ∀ r ∈ results (Sys.init w₀) (evs.map .ev), r = none)
+    (hbal : exitsBalanced evs) (hdrop : noDropWhileEntered (Sys.init w₀) evs)
+    (hq : ∀ g, entersOf evs g = exitsOf evs g) :
+    let σ := (runHistory (Sys.init w₀) (evs.map .ev)).σ
+    (persist σ).2.2.host = σ.w.host :=
+  C02_quiescent_persist_is_silent _ ((C02_quiescent_guest_level w₀ evs hacc hbal hdrop).2 hq)
+
 end TT
